@@ -2,6 +2,8 @@
 import itertools
 import warnings
 
+from checks.common import WarnCount
+
 import numpy as np
 
 from mc.choices import Chooser, explore
@@ -158,7 +160,9 @@ def gh_call(ctx, a, b=None, prefix=()):
         warnings.simplefilter("always")
         ctx.trans()
         r = gromov_hausdorff(a, b) if b is not None else gromov_hausdorff(a)
-    return r, len(w), ch
+    n = WarnCount(len(w))
+    n.messages = [str(x.message) for x in w]
+    return r, n, ch
 
 
 def bracket(ctx, A, B, res, nwarn, what):
@@ -177,6 +181,8 @@ def bracket(ctx, A, B, res, nwarn, what):
     disc = len(mgh.components(A)) > 1 or len(mgh.components(B)) > 1
     if disc and nwarn < 1:
         ctx.violation("no-warning", "a disconnected graph was replaced by a component without a warning [%s]" % (what,), observed=nwarn, extra=ex)
+    if not disc and any("disconnected" in m for m in getattr(nwarn, "messages", ())):
+        ctx.violation("spurious-warning", "connected graphs reported as disconnected [%s]" % (what,), observed=nwarn.messages[:2], extra=ex)
     return lb, ub
 
 
